@@ -993,6 +993,8 @@ def _read_str(ctx: ReaderContext, raw_string: bool = False) -> str:
             raise ctx.eof_error("Unexpected EOF in string")
         if char == "\\":
             char = reader.next_char()
+            if char == "":
+                raise ctx.eof_error("Unexpected EOF in string")
             if raw_string:
                 s.append("\\")
             elif (escape_char := _STR_ESCAPE_CHARS.get(char, None)) is not None:
@@ -1023,6 +1025,8 @@ def _read_fstr(ctx: ReaderContext) -> str | llist.PersistentList:
             raise ctx.eof_error("Unexpected EOF in string")
         if char == "\\":
             char = reader.next_char()
+            if char == "":
+                raise ctx.eof_error("Unexpected EOF in string")
             if (escape_char := _STR_ESCAPE_CHARS.get(char, None)) is not None:
                 s.append(escape_char)
                 continue
@@ -1090,6 +1094,8 @@ def _read_byte_str(ctx: ReaderContext) -> bytes:
 
     char = _consume_whitespace(ctx)
 
+    if char == "":
+        raise ctx.eof_error("Unexpected EOF in byte string")
     if char != '"':
         raise ctx.syntax_error(f"Expected '\"'; got '{char}' instead")
 
@@ -1194,7 +1200,7 @@ def _read_meta(ctx: ReaderContext) -> IMeta:
     input stream."""
     start = ctx.reader.advance()
     assert start == "^"
-    meta = _read_next_consuming_comment(ctx)
+    meta = _read_next_required(ctx, "metadata prefix '^'")
 
     meta_map: lmap.PersistentMap[LispForm, LispForm] | None
     if isinstance(meta, sym.Symbol):
@@ -1210,7 +1216,7 @@ def _read_meta(ctx: ReaderContext) -> IMeta:
             f"Expected symbol, keyword, or map for metadata, not {type(meta)}"
         )
 
-    obj_with_meta = _read_next_consuming_comment(ctx)
+    obj_with_meta = _read_next_required(ctx, "metadata")
     if isinstance(obj_with_meta, IWithMeta):
         new_meta = (
             obj_with_meta.meta.cons(meta_map)
@@ -1331,7 +1337,7 @@ def _read_quoted(ctx: ReaderContext) -> llist.PersistentList:
     """Read a quoted form from the input stream."""
     start = ctx.reader.advance()
     assert start == "'"
-    next_form = _read_next_consuming_comment(ctx)
+    next_form = _read_next_required(ctx, "quote prefix \"'\"")
     return llist.l(_QUOTE, next_form)
 
 
@@ -1441,7 +1447,9 @@ def _read_syntax_quoted(ctx: ReaderContext) -> RawReaderForm:
     assert start == "`"
 
     with ctx.syntax_quoted():
-        return _process_syntax_quoted_form(ctx, _read_next_consuming_comment(ctx))
+        return _process_syntax_quoted_form(
+            ctx, _read_next_required(ctx, "syntax quote prefix '`'")
+        )
 
 
 def _read_unquote(ctx: ReaderContext) -> LispForm:
@@ -1464,10 +1472,10 @@ def _read_unquote(ctx: ReaderContext) -> LispForm:
         next_char = ctx.reader.peek()
         if next_char == "@":
             ctx.reader.advance()
-            next_form = _read_next_consuming_comment(ctx)
+            next_form = _read_next_required(ctx, "unquote-splicing prefix '~@'")
             return llist.l(_UNQUOTE_SPLICING, next_form)
         else:
-            next_form = _read_next_consuming_comment(ctx)
+            next_form = _read_next_required(ctx, "unquote prefix '~'")
             return llist.l(_UNQUOTE, next_form)
 
 
@@ -1476,7 +1484,7 @@ def _read_deref(ctx: ReaderContext) -> LispForm:
     """Read a derefed form from the input stream."""
     start = ctx.reader.advance()
     assert start == "@"
-    next_form = _read_next_consuming_comment(ctx)
+    next_form = _read_next_required(ctx, "deref prefix '@'")
     return llist.l(_DEREF, next_form)
 
 
@@ -1746,7 +1754,7 @@ def _read_comment(ctx: ReaderContext) -> LispReaderForm:
             reader.advance()
             return COMMENT
         if char == "":
-            return ctx.eof
+            return COMMENT
         reader.advance()
 
 
@@ -1755,6 +1763,8 @@ def _read_var_macro(ctx: ReaderContext) -> llist.PersistentList:
     assert ctx.reader.peek() == "'"
     ctx.reader.advance()
     char_next = ctx.reader.peek()
+    if char_next == "":
+        raise ctx.eof_error("Unexpected EOF after var quote prefix \"#'\"")
     if char_next == "~":
         s = _read_unquote(ctx)
     else:
@@ -1810,7 +1820,7 @@ def _read_reader_macro(ctx: ReaderContext) -> LispReaderForm:
             elif s.name == "f":
                 return _read_fstr(ctx)
 
-        v = _read_next_consuming_comment(ctx)
+        v = _read_next_required(ctx, f"tag '#{s}'")
 
         if not ctx.should_process_tagged_literals:
             return tagged_literal(s, v)
@@ -1827,6 +1837,19 @@ def _read_next_consuming_comment(ctx: ReaderContext) -> RawReaderForm:
         v = _read_next(ctx)
         if v is ctx.eof:
             return cast(RawReaderForm, ctx.eof)
+        if v is COMMENT or isinstance(v, Comment):
+            continue
+        return v
+
+
+def _read_next_required(ctx: ReaderContext, after: str) -> RawReaderForm:
+    """Read the next full form from the input stream, consuming any reader comments
+    completely. Raise an UnexpectedEOFError if the stream ends before a form is read,
+    since the caller has already consumed a prefix which requires a following form."""
+    while True:
+        if _consume_whitespace(ctx) == "":
+            raise ctx.eof_error(f"Unexpected EOF after {after}")
+        v = _read_next(ctx)
         if v is COMMENT or isinstance(v, Comment):
             continue
         return v
